@@ -33,6 +33,7 @@ const (
 	FeatExplicitBase   = "explicit-base-data-offset" // tfhd with base_data_offset (absolute moof position)
 	FeatPrftBeforeMoof = "prft-before-moof"
 	FeatUUIDInTraf     = "uuid-in-traf" // tfxd / tfrf / vendor uuid boxes as children of traf
+	FeatSidx           = "sidx"         // sidx boxes (one per segment, or one behind moov)
 )
 
 var (
@@ -237,6 +238,14 @@ func Gen(t *rapid.T, o GenOpt) Case {
 	c.StartTime = pick(t, "start", uint64(0), 0, 1, 1000, 0xfffffff0, 1<<32+12345)
 	c.SeqStart = pick(t, "seq", uint32(0), 1, 1, 100)
 	c.Styp = pct(t, 30, "styp")
+	if pct(t, 15, "sidx") {
+		c.Sidx = true
+	} else if pct(t, 8, "topSidx") {
+		c.TopSidx = true
+	}
+	if o.avoid(FeatSidx) {
+		c.Sidx, c.TopSidx = false, false
+	}
 	if pct(t, 50, "pssh") {
 		sys := []byte{0xed, 0xef, 0x8b, 0xa9, 0x79, 0xd6, 0x4a, 0xce, 0xa3, 0xc8, 0x27, 0xdc, 0xd5, 0x1d, 0x21, 0xed}
 		data := rapid.SliceOfN(rapid.Byte(), 0, 20).Draw(t, "psshdata")
@@ -326,6 +335,9 @@ func Gen(t *rapid.T, o GenOpt) Case {
 	}
 	if !base1 {
 		c.MoovExtra = genExtras(t, []string{"vendor", "unknown", "free", "udta"}, c.TrackID, "moov-")
+	}
+	if len(c.MoovExtra) > 0 {
+		c.TopSidx = false // Build appends MoovExtra to a moov that ends the init segment
 	}
 
 	// samples
@@ -488,6 +500,8 @@ func Classes(c *Case) []string {
 	add(c.MaxEntries() >= 30, ">=30 sub-sample entries in a sample")
 	add(c.SaizLimit(), "sub-sample table beyond the saiz size limit")
 	add(c.Styp, "styp-segments")
+	add(c.Sidx, "sidx-per-segment")
+	add(c.TopSidx, "sidx-behind-moov")
 	add(len(c.Pssh) > 0, "pssh-given")
 	add(len(c.MoovExtra) > 0, "extra-box-in-moov")
 	if e := c.Stsd; len(e) > 24 && c.Video() {
